@@ -225,7 +225,8 @@ VARIANTS += [
     ("C10-add-float-again", "C10", DUR, "            return self.__class__(\n                microseconds=_native_microseconds(self) + _native_microseconds(other)\n            )", "            return self.__class__(seconds=self.total_seconds() + other.total_seconds())", "ADDSUB"),
     ("C10-native-helper-weight", "C10", DUR, "        timedelta.days.__get__(delta) * SECONDS_PER_DAY\n        + timedelta.seconds.__get__(delta)\n    ) * US_PER_SECOND + timedelta.microseconds.__get__(delta)", "        timedelta.days.__get__(delta) * SECONDS_PER_DAY\n        + timedelta.seconds.__get__(delta)\n    ) * US_PER_SECOND", "UNITS.native"),
     ("C10-interval-no-delegate", "C10", IV, "    def __mod__(self, other: timedelta) -> Duration:  # type: ignore[override]\n        return self.as_duration().__mod__(other)\n", "", "CTOR-LSP"),
-    ("C10-as-duration", "C10", IV, "        return Duration(seconds=self.total_seconds())", "        return Duration(seconds=self.in_seconds())", "INTERVAL.delegate"),
+    ("C10-as-duration", "C10", IV, "        return Duration(microseconds=_native_microseconds(self))", "        return Duration(seconds=self.in_seconds())", "INTERVAL.exact"),
+    ("C10-as-duration-float", "C10", IV, "        return Duration(microseconds=_native_microseconds(self))", "        return Duration(seconds=self.total_seconds())", "INTERVAL.exact"),
 ]
 
 TIME = "src/pendulum/time.py"
